@@ -46,7 +46,7 @@ def main(job_path, out_path):
         except Exception as e:  # noqa
             import traceback
             res["error"] = traceback.format_exc()[-1500:]
-            res["error_lib"] = core.lib_raised(e.__traceback__)
+            res["error_lib"] = core.lib_raised(e.__traceback__, type(e))
             res["error_type"] = type(e).__name__
         out["programs"][str(pj["idx"])] = res
     with open(out_path, "w") as f:
